@@ -17,7 +17,7 @@ THEOREMS = [
 ]
 RULE = ("stage 1: for every registered constructor, schema-directed values (all flag-group presence patterns for "
         "constructors with at most five conditional fields, type-directed random values otherwise, every enum "
-        "member) are marshalled by the real code and by the Lean schema-defined serialisation (which reads only the "
+        "member, vectors of 255, 256, 257, 1023, 1024, 1025, 3000 (thorough: up to 10000) elements of every element kind) are marshalled by the real code and by the Lean schema-defined serialisation (which reads only the "
         "schema line) and the bytes compared; stage 2: the schema-defined bytes are decoded by the real code and "
         "must give the value back; byte strings at the boundary lengths 0..5, 252..257, 65535, 65536 (thorough: "
         "2^24-1, 2^24). distinct = distinct operation lines")
